@@ -281,6 +281,11 @@ func (rv *PostingsList) read(postingsOffset uint64, d *Dictionary) error {
 		return rv.init1Hit(postingsOffset)
 	}
 
+	// a list that is read into again (the dictionary iterator reuses one for
+	// every entry) must not keep the "1-hit" state of an earlier entry
+	rv.docNum1Hit = 0
+	rv.normBits1Hit = 0
+
 	// read the location of the freq/norm details
 	var n uint64
 	var read int
